@@ -9,9 +9,9 @@
 package otlpretry
 
 import (
-	"context"
 	"bytes"
 	"compress/gzip"
+	"context"
 	"crypto/sha256"
 	"errors"
 	"fmt"
@@ -206,14 +206,15 @@ type world struct {
 	sim *simrt.Sim
 	mu  sync.Mutex // handler-side state is touched by uninstrumented server goroutines
 
-	t0       time.Time
-	isGRPC   bool
-	cur      *callRec
-	calls    []*callRec
-	handled  []string // errors passed to otel.ErrorHandler
-	sdInv    time.Duration
-	sdRet    time.Duration
-	sdCalled bool
+	t0        time.Time
+	isGRPC    bool
+	cur       *callRec
+	calls     []*callRec
+	handled   []string // errors passed to otel.ErrorHandler
+	sdInv     time.Duration
+	sdRet     time.Duration
+	sdCalled  bool
+	sdTimeout time.Duration
 
 	expTimeout time.Duration
 	sawGzip    bool
@@ -251,7 +252,7 @@ func (w *world) arriveCall(call int, hash string) outcome {
 // timeout per attempt (http.Client.Timeout), so a response slower than that is a timed-out request,
 // i.e. a temporary network error.
 func (w *world) effective(oc outcome) outcome {
-	if !w.isGRPC && !oc.dialFail && oc.latency > w.expTimeout {
+	if !w.isGRPC && !oc.dialFail && w.expTimeout > 0 && oc.latency > w.expTimeout {
 		return outcome{dialFail: true, clientTimeout: true, retryAfter: -1, retryInfo: -1, latency: w.expTimeout}
 	}
 	return oc
@@ -451,7 +452,7 @@ func (engine) Body(r *simdrv.Run) {
 	rc.initial = []time.Duration{time.Millisecond, 100 * time.Millisecond, time.Second}[r.Cfg(3)]
 	rc.max = rc.initial * time.Duration([]int{1, 2, 5}[r.Cfg(3)])
 	rc.maxTotal = []time.Duration{0, 50 * time.Millisecond, 2 * time.Second, 30 * time.Second, time.Minute}[r.Cfg(5)]
-	expTimeout := []time.Duration{100 * time.Millisecond, 5 * time.Second, 30 * time.Second, 2 * time.Minute}[r.Cfg(4)]
+	expTimeout := []time.Duration{100 * time.Millisecond, 5 * time.Second, 30 * time.Second, 2 * time.Minute, 0}[r.Cfg(5)] // 0: no exporter timeout
 	useGzip := r.Cfg(3) == 0
 	nCalls := 1 + r.Cfg(2)
 	lat := []time.Duration{0, 0, time.Millisecond, 300 * time.Millisecond, 3 * time.Second}
@@ -503,6 +504,9 @@ func (engine) Body(r *simdrv.Run) {
 	r.Res.Config["exporter_timeout"] = expTimeout.String()
 	r.Res.Config["ctx_timeout"] = ctxTimeout.String()
 	r.Res.Config["shutdown_at"] = shutdownAt.String()
+	sdTimeout := []time.Duration{0, 0, 50 * time.Millisecond, time.Second}[r.Cfg(4)] // 0: Shutdown(context.Background())
+	r.Res.Config["shutdown_ctx_timeout"] = sdTimeout.String()
+	w.sdTimeout = sdTimeout
 	for _, c := range w.calls {
 		r.Res.Config[fmt.Sprintf("script%d", c.idx)] = fmt.Sprint(c.script)
 	}
@@ -626,7 +630,7 @@ func (engine) Body(r *simdrv.Run) {
 		ctx, cancel := context.Background(), context.CancelFunc(func() {})
 		// gRPC exporters bound the whole export by their timeout; HTTP exporters apply it per attempt
 		c.deadline = 1000 * time.Hour
-		if w.isGRPC {
+		if w.isGRPC && expTimeout > 0 {
 			c.deadline = expTimeout
 		}
 		if ctxTimeout > 0 {
@@ -681,7 +685,13 @@ func (engine) Body(r *simdrv.Run) {
 			w.sdInv, w.sdCalled = w.now(), true
 			w.mu.Unlock()
 			r.Log("%d shutdown-invoke t=%v", sim.Stamp(), w.sdInv)
-			e := ex.shutdown(context.Background())
+			sctx, scancel := context.Background(), context.CancelFunc(func() {})
+			if sdTimeout > 0 {
+				sctx, scancel = context.WithTimeout(sctx, sdTimeout)
+				r.Fault("shutdown-with-deadline")
+			}
+			e := ex.shutdown(sctx)
+			scancel()
 			simrt.Woke(simdrv.PtOp)
 			w.mu.Lock()
 			w.sdRet = w.now()
@@ -787,6 +797,30 @@ func (w *world) oracle(kind string, rc retryCfg) {
 			}
 			if w.sdCalled && w.sdRet > 0 && a.at > w.sdRet {
 				r.Violate(prop, "attempt-after-shutdown", "attempt-after-shutdown/"+kind, "%s: attempt %d started at %v, after Shutdown returned at %v", where, a.idx, a.at, w.sdRet)
+			}
+		}
+		// (5b) the two trace exporters document that Shutdown cancels exports that are under way:
+		// otlptracehttp at once ("Stop shuts down the client and interrupt any in-flight request"),
+		// otlptracegrpc when Shutdown's context expires ("will cancel any active calls if ctx expires").
+		// From that instant on no attempt starts and the call returns.
+		forceAt := time.Duration(-1)
+		if w.sdCalled && kind == "tracehttp" {
+			forceAt = w.sdInv
+		}
+		if w.sdCalled && kind == "tracegrpc" && w.sdTimeout > 0 {
+			forceAt = w.sdInv + w.sdTimeout
+		}
+		if forceAt >= 0 {
+			for _, a := range c.attempts {
+				if a.at > forceAt+time.Millisecond {
+					r.Violate(prop, "attempt-after-shutdown", "attempt-after-forced-shutdown/"+kind, "%s: attempt %d started at %v although Shutdown (invoked at %v, context timeout %v) cancels active exports at %v", where, a.idx, a.at, w.sdInv, w.sdTimeout, forceAt)
+				}
+			}
+			if c.start <= forceAt && c.end > forceAt+time.Millisecond && !w.concurrent {
+				r.Violate(prop, "returned-late", "returned-late/forced-shutdown/"+kind, "%s returned at %v although Shutdown (invoked at %v, context timeout %v) cancels active exports at %v", where, c.end, w.sdInv, w.sdTimeout, forceAt)
+			}
+			if c.start <= forceAt && c.end >= forceAt && c.err != nil {
+				r.Probe("export-cancelled-by-shutdown")
 			}
 		}
 		// (4) the reported result
